@@ -36,6 +36,9 @@ type c10Person struct {
 	DY                   int
 	Place, Occu          string
 	UID                  string // value of a _UID line ("" = none)
+	// Blank: a placeholder record ("unknown father"): no NAME and no vital date.
+	// 1 = SEX and a NOTE, 2 = nothing but the marker, 3 = a NOTE and a source citation only.
+	Blank int
 }
 
 type c10Family struct {
@@ -104,6 +107,16 @@ func c10NewWorld(r *Rand, maxPeople int, firstKey int) *c10World {
 		}
 		if f.Husb < 0 && f.Wife < 0 && len(f.Chil) == 0 {
 			continue
+		}
+		// an unknown parent is kept as a placeholder record now and then
+		if f.Husb >= 0 && r.Chance(1, 9) {
+			w.P[f.Husb].Blank = 1 + r.Intn(3)
+		}
+		if f.Wife >= 0 && r.Chance(1, 9) {
+			w.P[f.Wife].Blank = 1 + r.Intn(3)
+		}
+		if len(f.Chil) > 0 && r.Chance(1, 14) {
+			w.P[f.Chil[r.Intn(len(f.Chil))]].Blank = 1 + r.Intn(3)
 		}
 		// a family shares its surname: makes relatives similar, as in real files
 		if f.Husb >= 0 {
@@ -175,6 +188,16 @@ func c10PersonFacts(p c10Person, marker string, detail uint32) []*c10Fact {
 		return out
 	}
 	var fs []*c10Fact
+	if p.Blank != 0 {
+		// the marker is a custom tag: it gives the record neither a name nor a date
+		switch p.Blank {
+		case 1:
+			fs = append(fs, c10F("SEX", p.Sex), c10F("NOTE", "unknown parent, placeholder "+strconv.Itoa(p.Key)))
+		case 3:
+			fs = append(fs, c10F("NOTE", "not identified "+strconv.Itoa(p.Key)), c10F("SOUR", "Family bible", c10F("PAGE", strconv.Itoa(p.Key%9+1))))
+		}
+		return append(fs, c10F("_MARK", marker))
+	}
 	name := fmt.Sprintf("%s /%s/", p.Given, p.Surn)
 	fs = append(fs, c10F("NAME", name, pick(0, []*c10Fact{c10F("GIVN", p.Given), c10F("SURN", p.Surn), c10F("NICK", p.Given[:2])})...))
 	fs = append(fs, c10F("SEX", p.Sex))
@@ -395,11 +418,21 @@ func c10Pair(r *Rand, shape string, maxPeople int) (l, rt *c10ADoc, note string)
 	for k := 0; k < nAdd; k++ {
 		w.P = append(w.P, c10NewPerson(r, 500+k))
 		i := len(w.P) - 1
+		if r.Chance(1, 4) { // a placeholder that only the copy has
+			w.P[i].Blank = 1 + r.Intn(3)
+		}
 		rv.People = append(rv.People, i)
 		// attach the new person to a family now and then
 		if len(w.F) > 0 && r.Chance(1, 2) {
 			f := &w.F[r.Intn(len(w.F))]
-			f.Chil = append(f.Chil, i)
+			switch {
+			case f.Husb < 0 && r.Bool(): // the copy knows of a (possibly unknown) father / mother
+				f.Husb = i
+			case f.Wife < 0 && r.Bool():
+				f.Wife = i
+			default:
+				f.Chil = append(f.Chil, i)
+			}
 		}
 	}
 	for _, i := range rv.People {
@@ -424,6 +457,10 @@ func c10Pair(r *Rand, shape string, maxPeople int) (l, rt *c10ADoc, note string)
 		}
 		if r.Chance(1, 25) {
 			p.BD = 1 + p.BD%28
+			changed = true
+		}
+		if p.Blank != 0 && r.Chance(1, 4) { // the copy has identified the unknown person
+			p.Blank = 0
 			changed = true
 		}
 		if changed {
